@@ -4,8 +4,8 @@ package main
 // C06 — Farm: reward budget is conserved, released only while staked, refunded once.
 
 import (
-	"os"
 	"fmt"
+	"os"
 	"strings"
 
 	"golang.org/x/tools/go/ssa"
